@@ -19,7 +19,7 @@ OV = {"internal/server/vcommon_test.go": ("common/vcommon_test.go", "server"),
 
 
 def cfg(conns, mx, kf1, kf2, inv="NeverMoreThanMax ReportedEqualsOpen NeverNegative", prop="AcceptRight", view=True):
-    s = ("SPECIFICATION Spec\nCONSTANTS\n Conns <- %s\n Max = %d\n MaxShells = 2\n KF_CountAfterHandshake = %s\n KF_DecrementPerShell = %s\n" %
+    s = ("SPECIFICATION Spec\nCONSTANTS\n Conns <- %s\n Max = %d\n MaxShells = 2\n KF_CountAfterHandshake = %s\n KF_DecrementPerShell = %s\n KF_RequestBurstLeak = FALSE\n" %
          (conns, mx, "TRUE" if kf1 else "FALSE", "TRUE" if kf2 else "FALSE"))
     if inv:
         s += "INVARIANTS %s\n" % inv
@@ -48,6 +48,10 @@ def run(tier, replay):
             r = vlib.tlc(wd, "MC_Connections", "G.cfg", files={"G.cfg": cfg("MCConns3", 2, kf1, kf2, prop="")}, timeout=600)
             if r.violated is None:
                 raise vlib.Inconclusive("deviation model does not violate the Ref")
+        # non-vacuity of the repaired deviation: with KF_RequestBurstLeak the design loses a slot
+        rl = vlib.tlc(wd, "MC_Connections", "L.cfg", files={"L.cfg": cfg("MCConns3", 2, False, False, prop="").replace("KF_RequestBurstLeak = FALSE", "KF_RequestBurstLeak = TRUE")}, timeout=600)
+        if rl.violated != "ReportedEqualsOpen":
+            raise vlib.Inconclusive("the model of the unrepaired request handling does not lose a slot (%s)" % rl.violated)
         cases = []
         nsim = 80 if tier == "quick" else 600
         for conns, mx in [("MCConns3", 2), ("MCConns3", 1), ("MCConns4", 2)]:
@@ -72,7 +76,7 @@ def run(tier, replay):
                 if x["a"] == "shell":
                     shells[x["c"]] = shells.get(x["c"], 0) + 1
             noshell = any(x["a"] == "close" and shells.get(x["c"], 0) == 0 for x in c["hist"])
-            return noshell or any(v > 1 for v in shells.values()) or "authfail" in acts or "otherchannel" in acts
+            return noshell or any(v > 1 for v in shells.values()) or "authfail" in acts or "otherchannel" in acts or "badrequest" in acts
         cases.sort(key=lambda c: not interesting(c))
         cases = cases[:(45 if tier == "quick" else 400)]
         # a burst: Max+2 TCP connections before any handshake
